@@ -320,7 +320,14 @@ static int pbt(uint64_t seed, uint64_t ncases, unsigned W, unsigned max_scale, c
         std::vector<uint8_t> m; read_file(rundir + "/fail." + std::to_string(best) + ".msg", m); msg.assign(m.begin(), m.end());
         kind = 1; have = true;
       } else if (!crashes.empty()) {
-        read_file(rundir + "/" + crashes[0], bytes); kind = 3; have = true; msg = "crash (signal or sanitizer abort) inside the case";
+        // several workers may have crashed (or been killed while writing): take the first file that reproduces
+        if (g_prop.setup) g_prop.setup();
+        for (auto& cf : crashes) {
+          std::vector<uint8_t> b; if (!read_file(rundir + "/" + cf, b) || b.empty()) continue;
+          if (!have) { bytes = b; have = true; }
+          if (run_forked(b, nullptr, 600) == 3) { bytes = b; break; }
+        }
+        kind = 3; msg = "crash (signal or sanitizer abort) inside the case";
       }
     }
     if (!have) {
